@@ -143,6 +143,8 @@ func Scalars() map[string]interface{} {
 		// keys that begin with (or contain) a word of the language
 		"notes": "n1", "nothing": 0, "android": "a", "order": 2, "inside": "i", "island": "x", "anyone": 1, "allow": true, "asset": "as",
 		"emptyish": "", "matchesx": "m", "containsx": "c", "not_": "u", "isnot": 3, "and1": "d", "In": "cap",
+		// values that can be written as bare (unquoted) literals of several shapes
+		"ver": "v1.2", "host": "node.eu.example", "rc": "rc.1", "word": "plain", "taglist": []string{"v1.2", "x.0.y"},
 	}
 }
 
